@@ -37,7 +37,9 @@ TraceNext ==
        LET v == SecVerdict(e) IN
        /\ cls' = cls
        /\ IF v # "ok" THEN PrintT(<<"FAIL", e.tid, l, v>>) /\ lookup' = lookup
-          ELSE lookup' = IF e.scrubbed \/ e.key \in DOMAIN lookup \/ e.repl = e.orig THEN lookup
+          \* (a secret that was left as it is - a reserved word, a defect listed as finding - stands for itself: no OTHER
+          \*  secret may be given that text as its replacement, and it must be left alone again next time)
+          ELSE lookup' = IF e.scrubbed \/ e.key \in DOMAIN lookup THEN lookup
                          ELSE (e.key :> e.pseudo) @@ lookup
      ELSE IF e.ev = "pair" THEN
        /\ UNCHANGED <<lookup, cls>>
